@@ -209,6 +209,42 @@ class PoolRunner:
                         m.hold[i][n] = m.hold[i].get(n, 0) + a
                     m.hold[j].clear()
                     self.bump(self.stats['reach'], 'merge')
+                elif kind == 'tamper':
+                    # the dictionary handed out by reserved_resources is the caller's to edit: the reservation must not change
+                    _, hi = op
+                    if hi >= len(self.handles):
+                        continue
+                    d = self.handles[hi].reserved_resources
+                    d.clear()
+                    d['zz'] = 5
+                    self.bump(self.stats['reach'], 'tampered_with_returned_dict')
+                elif kind == 'release_rel':
+                    # release an amount computed from what is held: held + delta of one resource (delta > 0: over-release)
+                    _, hi, ni, delta = op
+                    if hi >= len(self.handles) or not m.hold[hi]:
+                        continue
+                    h, mh = self.handles[hi], m.hold[hi]
+                    n = sorted(mh)[ni % len(mh)]
+                    amt = mh[n] + delta
+                    if not (amt > mh[n] or amt < mh[n]) and delta != 0:
+                        continue      # delta is below the resolution of the held amount
+                    try:
+                        h.release({n: amt})
+                    except (ValueError, KeyError) as e:
+                        self.stats['raised'] += 1
+                        if 0 <= amt <= mh[n]:
+                            self.fail('C09.e', f'{what}: releasing {amt} of {n} raised {e} although {mh[n]} is held', 'spurious_error')
+                        self.expect_unchanged(before, what, e)
+                        self.bump(self.stats['reach'], 'near_over_release_rejected')
+                    else:
+                        if amt > mh[n] or amt < 0:
+                            self.fail('C09.e', f'{what}: releasing {amt} of {n} was accepted although only {mh[n]} is held',
+                                      'over_release')
+                        if amt > 0:
+                            mh[n] -= amt
+                            m.use[n] -= amt
+                            if mh[n] == 0:
+                                del mh[n]
                 elif kind == 'tick':
                     system.simulate(0.25, print_summary=False)
                 else:
@@ -238,7 +274,7 @@ def run_c09(case):
     return r.run()
 
 
-AMTS = (0, 1, 1, 2, 3, -1)
+AMTS = (0, 1, 1, 2, 3, -1, 1, 2, 2.0 ** -50)     # 2**-50: a positive amount, however small
 
 
 def gen_req(rng, names=NAMES):
@@ -248,7 +284,33 @@ def gen_req(rng, names=NAMES):
     return {n: rng.choice(AMTS) for n in ns}
 
 
+def _scale_case(case, k):
+    def sc(v):
+        return v * k
+    case['init'] = {n: sc(a) for n, a in case['init'].items()}
+    for op in case['ops']:
+        if op[0] == 'add':
+            op[2] = sc(op[2])
+        elif op[0] == 'reserve':
+            op[1] = {n: sc(a) for n, a in op[1].items()}
+        elif op[0] == 'release' and op[2]:
+            op[2] = {n: sc(a) for n, a in op[2].items()}
+    return case
+
+
 def gen_c09(rng):
+    case = _gen_c09(rng)
+    x = rng.random()
+    if x < 0.05:
+        # very large amounts: one unit is far below any relative tolerance
+        _scale_case(case, 2 ** 32)
+        case['scale'] = 'big'
+    # (no tenths here: with amounts that are not exactly representable "usage == sum of holdings" differs by rounding
+    #  in the unchanged library too; the property is about exact amounts)
+    return case
+
+
+def _gen_c09(rng):
     init = {n: rng.choice((0, 1, 2, 3, 5)) for n in rng.sample(NAMES, rng.randint(0, 3))}
     ops = []
     for _ in range(rng.choice((3, 6, 12, 25, 40))):
@@ -265,8 +327,12 @@ def gen_c09(rng):
             else:
                 res = {n: rng.choice((0, 1, 1, 2, -1, 7)) for n in rng.sample(NAMES + (UNKNOWN,), rng.randint(0 if rng.random() < 0.3 else 1, 3))}
                 ops.append(['release', hi, res])
-        elif x < 0.95:
+        elif x < 0.90:
             ops.append(['merge', rng.randrange(4), rng.randrange(4)])
+        elif x < 0.93:
+            ops.append(['tamper', rng.randrange(4)])
+        elif x < 0.97:
+            ops.append(['release_rel', rng.randrange(4), rng.randrange(3), rng.choice((1, 1, -1, 0, 2.0 ** -20, 0.5))])
         else:
             ops.append(['tick'])
     return {'engine': 'poolsim', 'init': init, 'ops': ops}
@@ -413,9 +479,27 @@ class TimedPoolRunner(core.Hooks):
         self.handles[i].release()
         self.hold_model[i] = {}
 
+    def shared_cb(self, manager, request):
+        """One callable object registered several times: each registration is a request of its own."""
+        cands = [w for w in self.waiting if w['kind'] == 'shared' and w['req'] == request and not w.get('served')]
+        exp = [x for x in (self.exp or []) if not isinstance(x, tuple)]
+        pref = sorted((w for w in cands if w['id'] in exp), key=lambda w: exp.index(w['id']))
+        w = (pref or cands or [None])[0]      # equal registrations are interchangeable: follow the model's choice
+        if w is None:
+            self.fail('C10.a', f'shared callback invoked with {request} but no such registration is waiting', 'shared_unknown')
+        w['served'] = True
+        w['cb'](manager, request)
+
     def register(self, req, kind, mutate=False):
         rid = next(self.ids)
         orig = dict(req)
+        if kind == 'shared':
+            inner = self.make_cb(rid, dict(req), 'reserve', orig)
+            self.rm.reserve_resources_with_callback(orig, self.shared_cb)
+            self.waiting.append({'id': rid, 'req': dict(req), 'kind': 'shared', 'cb': inner})
+            self.stats['registered'] += 1
+            self.bump(self.stats['reach'], 'same_callable_registered_again')
+            return rid
         self.rm.reserve_resources_with_callback(orig, self.make_cb(rid, dict(req), kind, orig))
         if mutate:
             # the caller reuses its dict afterwards: the waiting request must be the copy taken at registration
@@ -465,7 +549,7 @@ class TimedPoolRunner(core.Hooks):
             fits = all(cap[n] - use[n] >= a for n, a in w['req'].items() if a != 0)
             if fits:
                 exp.append(w['id'])
-                if w['kind'] == 'reserve':
+                if w['kind'] in ('reserve', 'shared'):
                     for n, a in w['req'].items():
                         if a > 0:
                             use[n] += a
@@ -517,6 +601,17 @@ class TimedPoolRunner(core.Hooks):
             # requests registered from inside callbacks have fresh ids: map None -> actual new ids in order
             new_ids = [w['id'] for w in self.waiting[self.n_wait_before:]]
             exp = [x if not isinstance(x, tuple) else (new_ids[x[1]] if x[1] < len(new_ids) else '?') for x in exp]
+            # registrations of one and the same callable with equal requests cannot be told apart by the callee:
+            # compare them as interchangeable, and let the model decide which of them was served
+            by_id = {w['id']: w for w in self.waiting}
+
+            def canon(x):
+                w = by_id.get(x)
+                if w is not None and w['kind'] == 'shared':
+                    return ('shared', tuple(sorted(w['req'].items())))
+                return x
+            if [canon(x) for x in got] == [canon(x) for x in exp]:
+                got = list(exp)
             if got != exp:
                 missing = [x for x in exp if x not in got]
                 extra = [x for x in got if x not in exp]
@@ -532,6 +627,8 @@ class TimedPoolRunner(core.Hooks):
                 self.bump(self.stats['reach'], 'multi_callback_scan')
             served = set(got)
             self.waiting = [w for w in self.waiting if w['id'] not in served]
+            for w in self.waiting:
+                w.pop('served', None)
         elif got:
             self.fail('C10.a', f'callbacks {got} ran outside an availability check', 'outside_scan')
         self.in_scan = False
@@ -601,7 +698,7 @@ def gen_c10(rng):
         if x < 0.35:
             req = {n: rng.choice((0, 1, 1, 2, 3)) for n in rng.sample(NAMES, rng.choice((1, 1, 2, 3)))}
             ops.append({'t': t, 'pr': pr, 'op': 'register', 'req': req,
-                        'cb': rng.choice(('reserve', 'reserve', 'reserve', 'none', 'register', 'release', 'add')),
+                        'cb': rng.choice(('reserve', 'reserve', 'reserve', 'none', 'register', 'release', 'add', 'shared', 'shared')),
                         'mut': rng.random() < 0.15})
         elif x < 0.55:
             req = {n: rng.choice((1, 1, 2)) for n in rng.sample(NAMES, rng.choice((1, 1, 2)))}
@@ -612,6 +709,14 @@ def gen_c10(rng):
             ops.append({'t': t, 'pr': pr, 'op': 'add', 'res': rng.choice(NAMES),
                         'amt': rng.choice((1, 1, 2, 3, -1, -2, 0))})
     ops.sort(key=lambda o: (o['t'], -o['pr']))
+    if rng.random() < 0.1:
+        # tenths: not exactly representable amounts
+        init = {n: a * 0.1 for n, a in init.items()}
+        for o in ops:
+            if 'req' in o:
+                o['req'] = {n: a * 0.1 for n, a in o['req'].items()}
+            if o['op'] == 'add':
+                o['amt'] = o['amt'] * 0.1
     plan = [horizon] if rng.random() < 0.7 else [horizon / 2, horizon / 2]
     return {'engine': 'poolsim_timed', 'init': init, 'ops': ops, 'plan': plan, 'tiebreak': core.gen_tiebreak(rng)}
 
